@@ -649,7 +649,11 @@ def comb_dormant(rnd, cfg):
     closes with an end group; the chain itself runs on through a non-empty right terminal."""
     u = rnd.choice(["CC({0})", "CC(C)({0})", "C(C{0})C", "[Si](C)({0})O", "CC(c1ccc({0})cc1)"])
     gid = rnd.choice(["1", "2", "7"])
-    unit = "[<]" + u.format("[$" + gid + rnd.choice(["|0|", "|0.0|", "|0|", "|0.001|"]) + "]") + "[>]"
+    # (a graft point of small POSITIVE weight can be grown from, which leaves chain ends no end group fits: not well-posed)
+    wg = rnd.choice(["|0|", "|0.0|", "|0|", "|0.001|"])
+    if wg == "|0.001|" and not cfg.get("allow_illposed", True):
+        wg = "|0|"
+    unit = "[<]" + u.format("[$" + gid + wg + "]") + "[>]"
     ends = ["[$" + gid + "]" + rnd.choice(["Br", "C", "OC", "[H]"])]
     if rnd.random() < 0.5:
         ends.append("[<]" + rnd.choice(["Cl", "F"]))
@@ -657,6 +661,8 @@ def comb_dormant(rnd, cfg):
     dist, fam = make_dist(rnd, 40.0, T / 40.0, cfg.get("family"), cfg.get("safe_dist", False))
     text = rnd.choice(["[H]", "CCC", "OC"]) + "{[>] " + unit + " ; " + ", ".join(ends) + " [<]}" + dist
     tags = {"arch:comb_dormant", "family:" + fam, "start:prefix", "weights:zero_among_positive"}
+    if wg == "|0.001|":
+        tags.add("illposed:graft_point_can_grow")
     if rnd.random() < 0.4:
         dist2, fam2 = make_dist(rnd, 60.0, 2, cfg.get("family"), cfg.get("safe_dist", False))
         text += "{[>] [<]OCCO[>] [<]}" + dist2
